@@ -114,6 +114,20 @@ Inductive sinput :=
 
 Inductive sout := SStored (v : option Q) | SRejected | SCrashed.
 
+Definition shape_eqb (a b : shape) : bool :=
+  (Nat.eqb (List.length a) (List.length b)) && forallb (fun p => fst p =? snd p) (combine a b).
+
+(* ---- orientation inputs: None, a scipy Rotation (single or a stack of n), anything else ---- *)
+Inductive oinput := ONone | ORot (single : bool) (n : Z) | ONotRotation.
+Inductive oout := OStored (n : Z) | ORejected | OCrashed.     (* number of stored quaternions *)
+
+(* ---- field_func inputs: what validate_field_func can observe of a value ---- *)
+Inductive fout := FoNone | FoNotArray | FoArray (s : shape) | FoRaises.   (* result of one probe call *)
+Inductive finput :=
+| FNone
+| FNotCallable
+| FCallable (args_ok : bool) (outs : list fout).   (* first two argument names are field, observers; probe results *)
+
 (* values offered to a membership test *)
 Inductive minput := MStr (s : string) | MHashable | MUnhashable.
 
